@@ -152,8 +152,9 @@ def build(case, hints):
     jit = case['jit']
     comparer = comparer_for(case, hints)
     cfg = {'tolerance': TOL[case['tol']]}
-    matrix = kind not in ('cong', 'between') and not (kind == 'linear' and len(case['S'][0]['shape']) == 0
-                                                     and hints.get('grader', 'formula') == 'formula')
+    matrix = kind not in ('cong', 'between') and not (
+        kind == 'linear' and len(case['S'][0]['shape']) == 0 and len(case['P'][0][0]['shape']) == 0
+        and not case['evalerr'] and hints.get('grader', 'formula') == 'formula')
     if matrix:
         p = case['policy']
         cfg.update(max_array_dim=2, shape_errors=p['shapeErrors'], suppress_matrix_messages=p['suppress'],
@@ -383,7 +384,7 @@ class Reporter(object):
         cls = sig.get('class') or 'unclassified'
         k = self.per_class.get(cls, 0)
         self.per_class[cls] = k + 1
-        if k < PER_CLASS_REPORTS or cls == 'unclassified':
+        if k < (PER_CLASS_REPORTS if sig.get('class') else 20):
             self.ctx.violation(sig, describe(sig), detail)
 
 
@@ -470,7 +471,7 @@ def run(ctx):
 
 # ------------------------------------------------------------------------------------------------ code -> spec
 def case_of(r):
-    return {k: r[k] for k in ('kind', 'tol', 'jit', 'policy', 'evalerr', 'P', 'S', 'mode', 'cfg')}
+    return {k: r[k] for k in ('kind', 'tol', 'jit', 'policy', 'evalerr', 'typed', 'P', 'S', 'mode', 'cfg')}
 
 
 def trace_record(r):
@@ -529,7 +530,7 @@ def rand_g(rng, lo, hi, p_complex=0.3):
 
 
 def base_case(kind, rng, tols=('abs', 'pct')):
-    return {'kind': kind, 'tol': rng.choice(tols), 'jit': 0, 'policy': dict(DEFAULT_POLICY), 'evalerr': False,
+    return {'kind': kind, 'tol': rng.choice(tols), 'jit': 0, 'policy': dict(DEFAULT_POLICY), 'evalerr': False, 'typed': False,
             'mode': {'k': 'flat', 'v': [0, 1]}, 'cfg': dict(DEFAULT_CFG), 'hints': {}}
 
 
@@ -549,6 +550,7 @@ def gen_cong(rng):
     c['hints'] = {'form': form, 'grader': rng.choice(['formula', 'numerical']) if ns == 1 else 'formula'}
     if ns > 1 and form == 'isq':
         c['hints']['form'] = 'cplx0'
+    c['typed'] = form in ('cplx0', 'isq')
     if step_at is None and form == 'plain' and c['tol'] == 'abs' and rng.random() < 0.3:
         c['jit'] = rng.choice([-1, 1])
     return c
@@ -570,6 +572,7 @@ def gen_between(rng):
     c['hints'] = {'form': form, 'grader': rng.choice(['formula', 'numerical']) if ns == 1 else 'formula'}
     if ns > 1 and form == 'isq':
         c['hints']['form'] = 'cplx0'
+    c['typed'] = form in ('cplx0', 'isq')
     return c
 
 
